@@ -30,6 +30,7 @@ type CaseC10 struct {
 	PreSteps []string    `json:"pre_steps,omitempty"`
 	PreKey   string      `json:"pre_key,omitempty"`
 	PreVal   interface{} `json:"pre_val,omitempty"`
+	Unrelated uint16     `json:"unrelated_opts,omitempty"`
 }
 
 func init() { register("C10", checkC10) }
@@ -129,6 +130,23 @@ func genC10(t *rapid.T) CaseC10 {
 	if src == 0 {
 		c.Src = "boost-list-parent"
 		c.Map, c.Steps, c.Key = boostListParent(t)
+	} else if src == 1 {
+		// a list that is a direct member of a list (JSON shape only)
+		c.Src = "boost-list-in-list"
+		var st []Step
+		c.Map, st, c.Key = boostLIL(t)
+		c.Steps = stepNames(st)
+		if len(c.Steps) > 1 && rapid.IntRange(0, 2).Draw(t, "wild") == 0 {
+			c.Steps[rapid.IntRange(1, len(c.Steps)-1).Draw(t, "wildat")] = "*"
+		}
+		switch rapid.IntRange(0, 2).Draw(t, "lilkey") {
+		case 0:
+			if last := c.Steps[len(c.Steps)-1]; last != "*" {
+				c.Key = last
+			}
+		case 1:
+			c.Key = rapid.SampledFrom(shapeKeys).Draw(t, "ukey")
+		}
 	} else {
 		c.Src = "shape"
 		sh := genRootShape(t, false)
@@ -155,6 +173,7 @@ func genC10(t *rapid.T) CaseC10 {
 	}
 	c.NewKind = rapid.SampledFrom([]string{"scalar", "scalar", "map", "Map", "str", "str-bool", "str-num", "existing"}).Draw(t, "newkind")
 	c.Sep = rapid.SampledFrom([]string{":", ":", "|"}).Draw(t, "sep")
+	c.Unrelated = genUnrelated(t)
 	if c.NewKind == "existing" {
 		// the new value equals what an entry under the key already holds
 		var held []interface{}
@@ -195,20 +214,33 @@ func stepLoc(cur []located, k string) []located {
 				}
 			}
 		case []interface{}:
-			for i, mem := range x {
-				p := fmt.Sprintf("%s/%d", lv.pos, i)
-				switch mm := mem.(type) {
-				case map[string]interface{}:
-					for kk, vv := range mm {
-						if k == "*" || kk == k {
-							out = append(out, located{vv, p + "/" + kk})
-						}
-					}
-				default:
-					if k == "*" {
-						out = append(out, located{mem, p})
-					}
+			out = append(out, stepLocList(x, lv.pos, k)...)
+		}
+	}
+	return out
+}
+
+// stepLocList mirrors stepList: a list stands for its members; for a plain key also when the member is a list.
+func stepLocList(x []interface{}, pos string, k string) []located {
+	var out []located
+	for i, mem := range x {
+		p := fmt.Sprintf("%s/%d", pos, i)
+		switch mm := mem.(type) {
+		case map[string]interface{}:
+			for kk, vv := range mm {
+				if k == "*" || kk == k {
+					out = append(out, located{vv, p + "/" + kk})
 				}
+			}
+		case []interface{}:
+			if k == "*" {
+				out = append(out, located{mem, p})
+			} else {
+				out = append(out, stepLocList(mm, p, k)...)
+			}
+		default:
+			if k == "*" {
+				out = append(out, located{mem, p})
 			}
 		}
 	}
@@ -272,6 +304,49 @@ func refUpdateSets(root map[string]interface{}, key string, steps []string, cs [
 						put(fmt.Sprintf("%s/%s/%d/%s", mpos, k0, i, key), condsHold(mm, cs), wildOnList, "form-2 target below a list parent with '*' (leniency 4)")
 					}
 				}
+				if inner, ok := mem.([]interface{}); ok {
+					// the path yields the inner list, not a node with a key entry; the recursive reading would descend
+					for _, l := range stepLocList(inner, fmt.Sprintf("%s/%s/%d", mpos, k0, i), key) {
+						ps.opt[l.pos] = true
+						info.Unspecified("form-2 target inside a list in a list (leniency 15)")
+					}
+				}
+			}
+		}
+	}
+	var atList func(pm []interface{}, pos string)
+	atList = func(pm []interface{}, pos string) {
+		for i, mem := range pm {
+			mpos := fmt.Sprintf("%s/%d", pos, i)
+			if inner, ok := mem.([]interface{}); ok {
+				if last != "*" {
+					atList(inner, mpos) // a list in a list stands for its members
+				} else {
+					// "*" selects the inner list as a value; the key entries of its map members may or may not be written
+					for j, im := range inner {
+						if mm, ok := im.(map[string]interface{}); ok {
+							if _, ok := mm[key]; ok {
+								put(fmt.Sprintf("%s/%d/%s", mpos, j, key), condsHold(mm, cs), true, "'*' as the last key over a list in a list (leniency 15)")
+							}
+						}
+					}
+				}
+				continue
+			}
+			mm, ok := mem.(map[string]interface{})
+			if !ok {
+				continue
+			}
+			if last == "*" {
+				for k := range mm {
+					if k == key {
+						atMap(mm, mpos, k, false, true)
+					} else {
+						atMap(mm, mpos, k, true, true)
+					}
+				}
+			} else {
+				atMap(mm, mpos, last, false, true)
 			}
 		}
 	}
@@ -286,24 +361,7 @@ func refUpdateSets(root map[string]interface{}, key string, steps []string, cs [
 				atMap(pm, p.pos, last, false, false)
 			}
 		case []interface{}:
-			for i, mem := range pm {
-				mm, ok := mem.(map[string]interface{})
-				if !ok {
-					continue
-				}
-				mpos := fmt.Sprintf("%s/%d", p.pos, i)
-				if last == "*" {
-					for k := range mm {
-						if k == key {
-							atMap(mm, mpos, k, false, true)
-						} else {
-							atMap(mm, mpos, k, true, true)
-						}
-					}
-				} else {
-					atMap(mm, mpos, last, false, true)
-				}
-			}
+			atList(pm, p.pos)
 		}
 	}
 	return ps
@@ -360,11 +418,10 @@ func checkC10(c CaseC10, info *Info) *Failure {
 		info.Skip = "empty case"
 		return nil
 	}
-	if hasListInList(c.Map) {
-		info.Skip = "list-in-list (outside the domain)"
-		return nil
-	}
+	info.ClassIf(hasListInList(c.Map), "list in a list in the Map")
 	defer resetOptions()
+	applyUnrelatedOptions(c.Unrelated)
+	info.ClassIf(c.Unrelated != 0, "unrelated options switched on")
 	sep := c.Sep
 	if sep == "" {
 		sep = ":"
